@@ -91,10 +91,16 @@ pub fn outcome_of<E: std::fmt::Display>(r: Result<End<Result<(), E>>, String>) -
 
 /// `bita <args>` as a simulated process. `args[0]` is the program name.
 pub fn run_cli(args: &[String]) -> CmdResult {
-    simkit::with(|s| s.event_s("cli", &args.join(" ")));
+    let os: Vec<std::ffi::OsString> = args.iter().map(std::ffi::OsString::from).collect();
+    run_cli_os(&os)
+}
+
+/// like `run_cli`, with arguments that need not be valid UTF-8 (file names are bytes)
+pub fn run_cli_os(args: &[std::ffi::OsString]) -> CmdResult {
+    simkit::with(|s| s.event_s("cli", &args.iter().map(|a| a.to_string_lossy().to_string()).collect::<Vec<_>>().join(" ")));
     let _ = take_log();
     let _ = take_panic();
-    let parsed = catch_unwind(AssertUnwindSafe(|| bita::cli::parse_opts(args.iter().map(|s| s.as_str()))));
+    let parsed = catch_unwind(AssertUnwindSafe(|| bita::cli::parse_opts(args.iter().cloned())));
     let (cmd, log_opts) = match parsed {
         Err(_) => {
             return CmdResult { outcome: Outcome::Panic(take_panic().unwrap_or_else(|| "?".into())), stdout: Vec::new(), log: take_log() }
